@@ -10,7 +10,7 @@ TRUSTED = ("Trusted base: Unicode tables of the unicode-normalization crate and 
 CHECKS = {
  "C01": dict(
    technique="explicit-state model checking (stateright, exhaustive bounded enumeration of inputs on the real tokenizer, invariant on every state)",
-   text="Every string over a trigger alphabet (one symbol per shortcut in the normalisation / lattice / plugin code) up to the stated length, in five fabricated worlds and modes A/B/C, is tokenized by the real code and the partition / lossless-surface invariant is evaluated on every state, including on-demand splits. Exhaustive within the bound; says nothing beyond the alphabet and length bound.",
+   text="Every string over a trigger alphabet (one symbol per shortcut in the normalisation / lattice / plugin code) up to the stated length, in five fabricated worlds and modes A/B/C, is tokenized by the real code and the partition / lossless-surface invariant is evaluated on every state, including on-demand splits. Exhaustive within the bound; says nothing beyond the alphabet and length bound. A further world puts two input-text plugins against each other (the first moves bytes while keeping the total length, the second edits in between).",
    ref="DESIGN.md §3 C01"),
  "C02": dict(
    technique="explicit-state model checking (stateright) of the real Viterbi search: exhaustive bounded enumeration of texts x cost worlds, reference = brute-force enumeration of all lattice paths plus independent DP over the observed lattice",
@@ -34,7 +34,7 @@ CHECKS = {
    ref="DESIGN.md §3 C11"),
  "C12": dict(
    technique="explicit-state model checking (stateright BFS) over configuration decisions (plugin POS registrations x build route x one POS pattern per user dictionary, all orders), every state built with the real compiler/loader and compared with the declared CSV content",
-   text="Every stack of up to 3 (thorough 4) user dictionaries with every combination of POS patterns (system POS only, own new POS, POS shared between dictionaries, POS equal to a plugin-registered one), with OOV plugins registering 0/1/2 POS, built against the bare system dictionary or against the loaded dictionary with plugins as `sudachi ubuild` does, plus stacks of 14 and 15: every user word must report its declared POS strings and split references (U-prefixed and inline) resolved into its own or the system dictionary, morphemes must report the dictionary number of their source (-1 for OOV), system words must be unaffected, a shared key must be found once per dictionary, the 15th dictionary must be rejected.",
+   text="Every stack of up to 3 (thorough 4) user dictionaries with every combination of POS patterns (system POS only, own new POS, POS shared between dictionaries, POS equal to a plugin-registered one), with OOV plugins registering 0/1/2 POS, built against the bare system dictionary or against the loaded dictionary with plugins as `sudachi ubuild` does, plus stacks of 14 and 15: every user word must report its declared POS strings and split references (U-prefixed and inline) resolved into its own or the system dictionary, morphemes must report the dictionary number of their source (-1 for OOV), system words must be unaffected, a shared key must be found once per dictionary, the 15th dictionary must be rejected. One user-dictionary builder is also driven through every order of good, half-rejected and system-POS reads; units of user words are checked in modes A/B with only surface and POS loaded.",
    ref="DESIGN.md §3 C12"),
  "C13": dict(
    technique="explicit-state model checking (stateright): exhaustive bounded enumeration of texts x definition-flag worlds on the real lattice builder, reference = textbook MeCab candidate model with greedy left-to-right class runs",
@@ -46,7 +46,7 @@ CHECKS = {
    ref="DESIGN.md §3 C04"),
  "C05": dict(
    technique="explicit-state model checking (stateright) over sets of field deviations of a baseline lexicon/matrix: each accepted input is compiled twice, loaded at two alignments and read back field by field against the declaration",
-   text="Baseline, every single deviation and every pair of deviations on different fields (string lengths around 127/128 UTF-16 units with BMP and astral characters, escapes, forms equal/different, dictionary-form and split references numeric / inline / U-prefixed, 127-item arrays, id and cost limits, matrices 1x1, 2x3, 3x2, 10x10) for system and user dictionaries: compiled on two threads with the same timestamp (byte-identical), loaded at buffer alignment offsets 0 and 1, every field of every entry and every matrix cell read back through the public readers.",
+   text="Baseline, every single deviation and every pair of deviations on different fields (string lengths around 127/128 UTF-16 units with BMP and astral characters, escapes, forms equal/different, dictionary-form and split references numeric / inline / U-prefixed, 127-item arrays, id and cost limits, matrices 1x1, 2x3, 3x2, 10x10) for system and user dictionaries: compiled on two threads with the same timestamp (byte-identical), loaded at buffer alignment offsets 0 and 1, every field of every entry and every matrix cell read back through the public readers. The lexicon is also handed to one builder in several read_lexicon calls at every cut, with resolve() calls in between that may fail, and read back the same way.",
    ref="DESIGN.md §3 C05"),
  "C14": dict(
    technique="explicit-state model checking (stateright): exhaustive bounded enumeration of texts, differential between the same world with and without path-rewrite plugins under six plugin settings",
@@ -54,15 +54,15 @@ CHECKS = {
    ref="DESIGN.md §3 C14"),
  "C15": dict(
    technique="explicit-state model checking (stateright): exhaustive bounded enumeration of strings over the numeral alphabet plus a generated value grid, reference = strict well-formed recogniser and classical evaluator in exact decimal arithmetic",
-   text="Every string within the bound over {0 1 2 5 〇 一 三 十 百 千 万 億 兆 , .} alone and embedded in text, with and without the plugin: every well-formed numeral must become exactly one token with the expected rendering; every joined token must have well-formed separators and a normalised form numerically equal to the classical value of its surface. All renderings (Arabic, kanji digits, comma groups, fractions, unit and coefficient notation) of d*10^k+e*10^j up to 10^40.",
+   text="Every string within the bound over {0 1 2 5 〇 一 三 十 百 千 万 億 兆 , .} alone and embedded in text, with and without the plugin: every well-formed numeral must become exactly one token with the expected rendering; every joined token must have well-formed separators and a normalised form numerically equal to the classical value of its surface. All renderings (Arabic, kanji digits, comma groups, fractions, unit and coefficient notation) of d*10^k+e*10^j up to 10^40. Numerals joined from several tokens (also from multi-character numeral words that declare units) must be the same single token in modes A and B.",
    ref="DESIGN.md §3 C15"),
  "C16": dict(
    technique="explicit-state model checking (stateright): exhaustive bounded enumeration of texts x window limits x with/without dictionary checker on the real sentence splitter, invariant + converse oracle",
-   text="Every text within the bound over an alphabet of terminators, brackets, quoting particles, digits/letters, <br>, ellipsis dots, commas, dictionary words containing a terminator and an astral character, split with window limits {1,2,3,5,4096} with and without the dictionary-based non-break checker (the lexicon lists the terminator itself): sentences partition the text and equal their slices, iteration terminates, every non-last sentence ends with terminator+tail, bracket level is 0 at each break, no break inside or at the end of a multi-character dictionary word, and every unvetoed terminator inside the window ends a sentence.",
+   text="Every text within the bound over an alphabet of terminators, brackets, quoting particles, digits/letters, <br>, ellipsis dots, commas, dictionary words containing a terminator and an astral character, split with window limits {1,2,3,5,4096} with and without the dictionary-based non-break checker (the lexicon lists the terminator itself): sentences partition the text and equal their slices, iteration terminates, every non-last sentence ends with terminator+tail, bracket level is 0 at each break, no break inside or at the end of a multi-character dictionary word, and every unvetoed terminator inside the window ends a sentence. Every text is also split by a splitter and in a text buffer that handled another text just before.",
    ref="DESIGN.md §3 C16"),
  "C17": dict(
    technique="explicit-state model checking (stateright) over definition files built line by line: every file up to the bound is loaded by the real parser and queried on every probe code point, reference = naive union of covering lines; plus all scalars on the shipped files",
-   text="Every sequence (all orders, duplicates) of up to 3-4 range lines from a menu of ranges x class sets over a small domain touching 0, and around the surrogate gap and the top of the code space, is loaded with the real CharacterCategory reader; every probe code point (all range ends and neighbours) must report exactly the union of the covering lines or DEFAULT; the three char.def files shipped in the repository are checked on all 1,112,064 scalar values.",
+   text="Every sequence (all orders, duplicates) of up to 3-4 range lines from a menu of ranges x class sets over a small domain touching 0, and around the surrogate gap and the top of the code space, is loaded with the real CharacterCategory reader; every probe code point (all range ends and neighbours) must report exactly the union of the covering lines or DEFAULT; the three char.def files shipped in the repository are checked on all 1,112,064 scalar values. A further menu lays ALL, NOOOVBOW and NOOOVBOW2 lines over each other in all orders.",
    ref="DESIGN.md §3 C17"),
  "C06": dict(
    level="fault_enumeration", engine="E1-stateright+E3-sink-faults",
@@ -71,11 +71,11 @@ CHECKS = {
    ref="DESIGN.md §3 C06"),
  "C07": dict(
    technique="explicit-state model checking (stateright): all 1,112,064 scalars in context and all bounded strings through the real input-text plugins, compared state by state with a reference normaliser",
-   text="The real DefaultInputText / ProlongedSoundMark / IgnoreYomigana plugins are run on every scalar value in several contexts (forcing both code paths) and on every string up to the bound over a trigger alphabet under four rewrite tables (prefix keys, multi-character keys and values, exempt characters), each table loaded twice; every result must equal the reference function written from the statement.",
+   text="The real DefaultInputText / ProlongedSoundMark / IgnoreYomigana plugins are run on every scalar value in several contexts (forcing both code paths) and on every string up to the bound over a trigger alphabet under four rewrite tables (prefix keys, multi-character keys and values, exempt characters), each table loaded twice; every result must equal the reference function written from the statement. The three plugins are also run as one pipeline in three orders against the composition of the three reference functions, and short texts are normalised on buffers that were used (and overflowed) before.",
    ref="DESIGN.md §3 C07"),
  "C08": dict(
    technique="explicit-state model checking (stateright BFS with canonical-state de-duplication) over histories of edit batches on the real InputBuffer, plus bounded string enumeration on the real tokenizer",
-   text="Every history of up to `depth` edit batches (all single replacements and all ordered non-overlapping pairs, by empty/shorter/longer/multi-byte strings) from every short original string is applied to the real InputBuffer; monotonicity, anchoring, boundary preservation, identity on unreplaced characters and the char/byte tables after build() are checked on every reachable state; begin_c/end_c are checked on the C01 string trees.",
+   text="Every history of up to `depth` edit batches (all single replacements and all ordered non-overlapping pairs, by empty/shorter/longer/multi-byte strings) from every short original string is applied to the real InputBuffer; monotonicity, anchoring, boundary preservation, identity on unreplaced characters and the char/byte tables after build() are checked on every reachable state; begin_c/end_c are checked on the C01 string trees. Every edit history is replayed on a buffer that held another rewritten text before reset() and judged by the same invariants.",
    ref="DESIGN.md §3 C08"),
  "C18": dict(
    engine="E2-schedules",
@@ -91,7 +91,7 @@ CHECKS = {
    ref="DESIGN.md §3 C19"),
  "C20": dict(
    technique="explicit-state model checking (stateright BFS) over parameter deviations (baseline, all singles, all pairs) of a configuration with every OOV provider type and the inhibit-connection plugin, four matrix shapes, real loader + analysis with debug assertions",
-   text="For matrices 1x1, 3x3, 2x3 and 3x2 every single and every pair of deviations of leftId / rightId / cost of SimpleOov and RegexOov, the ids and cost of an unk.def line and both members of an inhibitPair over {-1,0,n-1,n,n+1,m-1,m,m+1,32767,32768,65535,65536,-32768,-32769}, and POS absent x userPOS allow/forbid: loading must fail exactly when the reference (the dimension a value indexes in ConnectionMatrix::cost, i16 range, POS existence in setup order) says so; after a successful load only the inhibited cell differs from the matrix text and probes that use every provider at sentence start, middle and end analyse without panic.",
+   text="For matrices 1x1, 3x3, 2x3 and 3x2 every single and every pair of deviations of leftId / rightId / cost of SimpleOov and RegexOov, the ids and cost of an unk.def line and both members of an inhibitPair over {-1,0,n-1,n,n+1,m-1,m,m+1,32767,32768,65535,65536,-32768,-32769}, and POS absent x userPOS allow/forbid: loading must fail exactly when the reference (the dimension a value indexes in ConnectionMatrix::cost, i16 range, POS existence in setup order) says so; after a successful load only the inhibited cell differs from the matrix text and probes that use every provider at sentence start, middle and end analyse without panic. Sequences of loads alternate between a 9x9- and a 3x3-matrix dictionary over one unchanged set of configuration files; each load is judged by its own dictionary.",
    ref="DESIGN.md §3 C20"),
 }
 
